@@ -137,6 +137,10 @@ class _FunctionFreshness:
 
     def _sub_of_literal_root(self, e: ast.AST) -> bool:
         """`order = shim.get("order", {})`, `fixed = order["fixed"]`: a sub-object of an object created in this function"""
+        if isinstance(e, ast.BoolOp) and isinstance(e.op, ast.Or):
+            # `order = shim.get("order") or {}`: the sub-object, or a new empty container
+            subs = [v for v in e.values if not (isinstance(v, (ast.Dict, ast.List)) and not (getattr(v, "keys", None) or getattr(v, "elts", None)))]
+            return bool(subs) and all(self._sub_of_literal_root(v) for v in subs)
         r = e
         seen_access = False
         while True:
